@@ -149,3 +149,16 @@ Definition stays_ok (c : dcase) : bool :=
   if heal_applies c
   then forallb (fun q => negb (is_closed q)) (flat_map reqs_of_step (before_script (dc_steps c)))
   else true.
+
+(* ---- clause 2, on the instance's endpoint fields: whenever the instance is ready, ALL SIX endpoints it uses are
+   those of ONE document the provider actually handed out (never a mixture with an answer that was not a successful
+   discovery).  The state projection is what the harness reads from the instance after every operation. *)
+Definition doc_same (a b : doc) : bool :=
+  N.eqb (d_issuer a) (d_issuer b) && N.eqb (d_auth a) (d_auth b) && N.eqb (d_token a) (d_token b)
+  && N.eqb (d_jwks a) (d_jwks b) && N.eqb (d_revoke a) (d_revoke b) && N.eqb (d_end a) (d_end b).
+
+Definition ep_ok (c : dcase) : bool :=
+  forallb (fun s : obs_step =>
+             let st := snd s in
+             if os_ready st then existsb (doc_same (os_ep st)) (dc_served c) else true)
+          (dc_steps c).
